@@ -802,3 +802,141 @@ def assign_captured(ctx, r):
             continue
         r.ob(any(x["k"] == "MethodCall" and x["m"] == "new_closure_scope" for x in q.walk(a["body"])), f"resolve.rs:resolve_names_expr:{v}:no-closure-scope", RES, a["l"],
              f"{v} must resolve its body in a closure scope, otherwise assignments to captured variables are not detected", sample=f"{v}: body resolved in a closure scope")
+
+
+@rule("CAPTURE-WALK", ["C20"], "the scope walk that decides 'captured' never forgets a lambda/task boundary it has crossed")
+def capture_walk(ctx, r):
+    items = ctx.file_items(RES)
+    if items is None:
+        r.missing("resolve.rs")
+        return
+    fns = {f["name"]: f for impl in q.find_impls(items, self_ty="SymbolTableBase") for f in impl["items"] if f["k"] == "Fn" and f.get("body") is not None}
+    ic = fns.get("is_captured")
+    if ic is None:
+        r.missing("SymbolTableBase::is_captured", RES)
+        return
+
+    def calls_to(fn, names):
+        return [x for x in q.walk(fn["body"]) if x["k"] == "MethodCall" and x["m"] in names]
+
+    # the walker: is_captured itself, or the helper it delegates to
+    walker = ic
+    deleg = [x for x in calls_to(ic, set(fns) - {"is_captured", "lookup_declaration"}) if q.show(x["recv"]) == "self"]
+    if deleg and not any(x["k"] == "Match" for x in q.walk(ic["body"])):
+        walker = fns[deleg[0]["m"]]
+        init_args = [q.show(a) for a in deleg[0]["args"]]
+    else:
+        init_args = None
+    wname = walker["name"]
+    bool_params = [q.pat_bindings(p["pat"])[0] for p in walker["params"] if not p.get("self") and p.get("ty", "").strip() == "bool"]
+    local_found = [x for x in q.walk(walker["body"]) if x["k"] == "If" and "declarations.contains_key" in q.show(x["c"]).replace(" ", "")]
+    if not local_found:
+        r.missing(f"{wname}:found-in-this-scope test", RES)
+        return
+    found_ret = [q.show(y["e"]) for y in q.walk(local_found[0]["t"]) if y["k"] == "Return" and y.get("e") is not None]
+    rec = [x for x in calls_to(walker, {wname}) if "enclosing" in q.show(x["recv"])]
+    if not rec:
+        r.missing(f"{wname}:recursion through enclosing", RES)
+        return
+    if not bool_params:
+        # form A: the boundary decides at once - a closure scope asks whether the name exists anywhere further out
+        r.ob(found_ret == ["false"], f"resolve.rs:{wname}:declared-inside-is-not-captured", RES, local_found[0]["l"], f"{wname}: a name declared in a scope reached before any lambda/task boundary is not captured (returns {found_ret})", sample=f"{wname}: found before a boundary -> false")
+        gates = [x for x in q.walk(walker["body"]) if x["k"] == "If" and q.show(x["c"]).replace(" ", "").strip("()") == "self.is_closure_scope"]
+        ok = False
+        detail = "no `if self.is_closure_scope`"
+        if gates:
+            g = gates[0]
+            then_calls = [x for x in q.walk(g["t"]) if x["k"] == "MethodCall" and "enclosing" in q.show(x["recv"]) and x["m"] in fns and x["m"] != wname]
+            whole_chain = [x for x in then_calls if any(y["k"] == "MethodCall" and y["m"] == x["m"] and "enclosing" in q.show(y["recv"]) for y in q.walk(fns[x["m"]]["body"]))]
+            else_rec = g.get("e") is not None and any(y in rec for y in q.walk(g["e"]))
+            then_rec = any(y in rec for y in q.walk(g["t"]))
+            ok = bool(whole_chain) and else_rec and not then_rec
+            detail = f"at a boundary: {[q.show(x)[:60] for x in then_calls]}; otherwise recurses: {else_rec}"
+        r.ob(ok, f"resolve.rs:{wname}:boundary-forgotten", RES, walker["l"],
+             f"{wname}: at a lambda/task scope the answer must be 'declared anywhere further out' (a lookup over the whole enclosing chain); only scopes that are not boundaries may pass the question on unchanged ({detail})",
+             sample=f"{wname}: boundary -> whole-chain lookup; plain scope -> recurse")
+    else:
+        P = bool_params[0]
+        r.ob(found_ret == [P], f"resolve.rs:{wname}:declared-inside-is-not-captured", RES, local_found[0]["l"], f"{wname}: when the declaration is found the answer is the crossed-a-boundary flag `{P}` (returns {found_ret})", sample=f"{wname}: found -> {P}")
+        idx = [q.pat_bindings(p["pat"])[0] for p in walker["params"] if not p.get("self")].index(P)
+        for x in rec:
+            a = x["args"][idx] if idx < len(x["args"]) else None
+            ids = q.idents_in(a) if a is not None else set()
+            joined = a is not None and P in ids and any(y["k"] == "Binary" and y["op"] == "||" for y in q.walk(a)) and "is_closure_scope" in q.show(a)
+            r.ob(joined, f"resolve.rs:{wname}:boundary-forgotten", RES, x["l"],
+                 f"{wname}: the recursive call passes `{q.show(a) if a is not None else '?'}` as the crossed-a-boundary flag; it must be `{P} || self.is_closure_scope` - otherwise every plain block scope between the lambda and the declaration resets the flag and the assignment is accepted (and lost at run time)",
+                 sample=f"{wname}: flag passed on as {q.show(a) if a is not None else '?'}")
+        r.ob(init_args is not None and "false" in init_args, f"resolve.rs:{wname}:initial-flag", RES, ic["l"], f"is_captured must start the walk with the flag false (passes {init_args})")
+    r.count("scope-walk recursion sites", len(rec), 1, RES)
+
+
+TRANSFERS = {"Return", "ReturnVoid", "Jump", "Stop", "Panic"}
+
+
+@rule("EMIT-DEAD", ["C01", "C23", "C02"], "the generator never emits an instruction straight after an unconditional transfer without a label in between: such an instruction can never run, so the stack effect it was meant to have is silently missing")
+def emit_dead(ctx, r):
+    items = ctx.file_items(TB)
+    if items is None:
+        r.missing(TB)
+        return
+    n_transfer = 0
+    n_checked = 0
+    for f, _ in q.iter_items(items):
+        if f["k"] != "Fn" or f.get("body") is None:
+            continue
+        label_vars = set()
+        for x in q.walk(f["body"]):
+            if x["k"] == "Local" and x.get("init") is not None and any(y["k"] == "Call" and q.show(y["f"]) == "make_label" for y in q.walk(x["init"])):
+                label_vars |= set(q.pat_bindings(x["pat"]))
+
+        def classify(e):
+            """'label' | 'transfer' | 'instr' for the argument of emit."""
+            while e["k"] in ("Ref", "Paren") or (e["k"] == "MethodCall" and e["m"] in ("clone", "into") and not e["args"]):
+                e = e["e"] if e["k"] in ("Ref", "Paren") else e["recv"]
+            s = q.show(e)
+            if s.startswith("Line::Label") or (e["k"] == "Path" and e["p"] in label_vars):
+                return "label"
+            if e["k"] == "Index" and e["e"]["k"] == "Path" and "label" in e["e"]["p"]:
+                return "label"
+            head = s.split("(")[0].split("{")[0].strip()
+            if head.startswith("Instr::") and head.split("::")[1] in TRANSFERS:
+                return "transfer"
+            return "instr"
+
+        def emits(node):
+            return [x for x in q.walk(node) if x["k"] == "MethodCall" and q.show(x["recv"]) == "self" and (x["m"] == "emit" or (x["m"].startswith(("translate_", "emit_", "handle_")) and any(q.show(a) == "st" for a in x["args"])))]
+
+        for b in q.walk(f["body"]):
+            if b["k"] != "Block":
+                continue
+            dead = None
+            for s in b["stmts"]:
+                e = s.get("e") if s["k"] == "ExprStmt" else None
+                direct = e is not None and e["k"] == "MethodCall" and q.show(e["recv"]) == "self" and e["m"] == "emit" and len(e["args"]) >= 2
+                if direct:
+                    c = classify(e["args"][1])
+                    if dead is not None:
+                        n_checked += 1
+                        r.ob(c == "label", f"translate_bytecode.rs:{f['name']}:after-{dead[0]}:unreachable-emission", TB, e["l"],
+                             f"{f['name']}: `{q.show(e)[:90]}` is emitted right after the unconditional `{dead[1]}` with no label in between: it can never execute (a clean-up or placeholder pop placed there leaves a stray value on the stack on the path that jumps past it)",
+                             sample=f"{f['name']}: after {dead[1][:40]} comes a label")
+                    if c == "label":
+                        dead = None
+                    elif c == "transfer":
+                        n_transfer += 1
+                        dead = (q.show(e["args"][1]).split("(")[0].split("::")[-1], q.show(e["args"][1])[:60])
+                    else:
+                        dead = None
+                    continue
+                if dead is not None:
+                    es = emits(s)
+                    if es:
+                        first = es[0]
+                        c = classify(first["args"][1]) if first["m"] == "emit" and len(first["args"]) >= 2 else "instr"
+                        n_checked += 1
+                        r.ob(c == "label" and s["k"] == "ExprStmt" and s["e"] is first, f"translate_bytecode.rs:{f['name']}:after-{dead[0]}:unreachable-emission", TB, s["l"],
+                             f"{f['name']}: code is emitted (`{q.show(first)[:80]}`) right after the unconditional `{dead[1]}` with no label in between: it can never execute",
+                             sample=f"{f['name']}: after {dead[1][:40]} comes a label")
+                        dead = None
+    r.count("unconditional transfers emitted mid-sequence", n_transfer, 20, TB)
+    r.count("emissions following a transfer", n_checked, 7, TB)
